@@ -17,25 +17,30 @@ smallest outcome (`IsRank`).  The full statements are `C02Validity o`, `C02Tight
 
 Proved (all at the level of the public methods, through the constructor, negation, reciprocal and
 the sign routing of the product):
-* validity: `C02Validity_add_partial`, `C02Validity_sub_partial`,
-  `C02Validity_mul_onesign_partial` (operands of one sign each, all four sign combinations,
-  operands touching zero included — exactly the inputs the model does not route to the straddling
-  branch, `oneSign_of_not_straddles`), `C02Validity_div_onesign_partial` (one-signed dividend,
-  zero-free divisor); `C02Validity_mul_pos_partial` is kept as the positive instance;
-* tightness of BOTH bounds: `C02Tight_add_partial`, `C02Tight_sub_partial`,
-  `C02Tight_mul_onesign_partial`, `C02Tight_div_onesign_partial`, and with the bounding selections
-  named explicitly `add_f_tight`, `sub_f_tight`, `mul_f_pos_tight` (anti-diagonal couplings);
-* totality and well-formedness of the result on these inputs: `add_f_ok`, `mul_f_onesign_ok`,
-  `div_f_onesign_ok`;
-* enclosure of the other dependencies: `C02Encloses_add_po_partial`,
-  `C02Encloses_mul_nonneg_po_partial` (Frechet encloses the perfect and the opposite result),
-  `C02Encloses_add_i_partial`, `C02Encloses_mul_nonneg_i_partial` (… and the independent result
-  after condensation of its `n²` values).
+* validity: `C02Validity_add_partial`, `C02Validity_sub_partial` (full instances
+  `C02Validity .add`, `C02Validity .sub`), `C02Validity_mul_onesign_partial` (operands of one sign
+  each, all four sign combinations, operands touching zero included — exactly the inputs the model
+  does not route to the straddling branch: `C02Validity_mul_nostraddle_partial`,
+  `oneSign_of_not_straddles`), `C02Validity_div_onesign_partial` (one-signed dividend, zero-free
+  divisor); `C02Validity_mul_pos_partial` is kept as the positive instance;
+* tightness of BOTH bounds: `C02Tight_add_partial`, `C02Tight_sub_partial` (full instances
+  `C02Tight .add`, `C02Tight .sub`), `C02Tight_mul_onesign_partial`, `C02Tight_div_onesign_partial`,
+  and with the bounding selections named explicitly `add_f_tight`, `sub_f_tight`,
+  `mul_f_pos_tight` (anti-diagonal couplings);
+* totality and well-formedness of the result on these inputs: `add_f_ok`, `sub_f_good`,
+  `mul_f_onesign_ok`, `div_f_onesign_ok`; a divisor with a zero bound raises (`div_zero_bound_raises`);
+* enclosure of the other dependencies: `C02Encloses_add`, `C02Encloses_sub` (full instances: the
+  Frechet result encloses the perfect, the opposite AND the independent result — the latter after the
+  constructor condensed its `n²` values, by counting in the `n × n` grid), and for the product of
+  non-negative operands / the quotient of a non-negative dividend by a positive divisor
+  `C02Encloses_mul_nonneg_po_partial`, `C02Encloses_mul_nonneg_i_partial`,
+  `C02Encloses_div_pos_po_partial`, `C02Encloses_div_pos_i_partial`;
 * the two `sort` calls of `frechet_op` are identities.
 
 Missing (correspondence + oracle only): the product / quotient with a zero-straddling operand
-(naive ∩ Balch, `straddleFrechet`); enclosure of p/o/i for `sub`, `div` and for products with a
-non-positive operand; couplings that are not permutations (Birkhoff mixture argument, cited).
+(naive ∩ Balch, `straddleFrechet`) — validity, tightness and enclosure; enclosure of p/o/i for
+products / quotients with a non-positive operand (the four-corner rule then pairs a left with a right
+bound); couplings that are not permutations (Birkhoff mixture argument, cited).
 -/
 set_option linter.unusedSimpArgs false
 set_option linter.unusedVariables false
@@ -157,9 +162,11 @@ theorem add_f_ok (n : Nat) (X Y : PB) (hX : WF n X) (hY : WF n Y) :
   exact mk_arr_ok n _ _ ll lr sl sr (fun i h => hle i (by omega))
 
 /-- **Full statement of C02 (validity part) for the public methods**, all four operations and all
-sign configurations.  Proved below for `add` (`C02Validity_add_partial`); the other operations
-reduce to it through negation / reciprocal / sign routing, which is established by the
-correspondence and the coupling oracle on the real code, not yet by a theorem. -/
+sign configurations.  Proved below for `add` and `sub` (`C02Validity_add_partial`,
+`C02Validity_sub_partial`: full instances) and, through negation / reciprocal / sign routing, for
+`mul` and `div` on operands that do not straddle zero (`C02Validity_mul_onesign_partial`,
+`C02Validity_div_onesign_partial`); a zero-straddling operand of `mul` / `div` (naive ∩ Balch) is
+covered by the correspondence and the coupling oracle only. -/
 def C02Validity (o : Op) : Prop :=
   ∀ (n : Nat) (X Y R : PB) (hX : WF n X) (hY : WF n Y), (o = .div → ZeroFree Y) →
     binop n o .f X Y = .ok R →
@@ -168,8 +175,9 @@ def C02Validity (o : Op) : Prop :=
       (univ.filter (fun m : Fin n => o.ap (x m) (y (σ m)) < l)).card ≤ i.val ∧
       (univ.filter (fun m : Fin n => r < o.ap (x m) (y (σ m)))).card ≤ n - 1 - i.val
 
-/-- C02 validity for the public `add` / bare `+` — partial: the `add` instance of `C02Validity`
-(missing: `sub`, `mul`, `div` instances at the level of the public methods). -/
+/-- C02 validity for the public `add` / bare `+`: the `add` instance of `C02Validity` ("partial" with
+respect to the four operations: `sub` is `C02Validity_sub_partial`, `mul` / `div` are proved for
+operands that do not straddle zero). -/
 theorem C02Validity_add_partial : C02Validity .add := by
   intro n X Y R hX hY _ hR x y hx hy σ i l r hl hr
   have h := (add_f_ok n X Y hX hY).1
@@ -205,8 +213,9 @@ theorem mul_f_pos_ok (n : Nat) (X Y : PB) (hX : WF n X) (hY : WF n Y) (pX : NonN
   exact mk_arr_ok n _ _ ll lr sl sr (fun i h => hle i (by omega))
 
 /-- C02 validity for the public `mul` / bare `*` on non-negative, not identically zero operands —
-partial: the positive×positive instance of `C02Validity .mul` (negative operands are routed through
-`neg`, see `neg_wf`; zero-straddling operands through naive ∩ Balch: correspondence + oracle only). -/
+partial: the positive×positive instance of `C02Validity .mul` (all four sign combinations:
+`C02Validity_mul_onesign_partial`; zero-straddling operands through naive ∩ Balch: correspondence +
+oracle only). -/
 theorem C02Validity_mul_pos_partial (n : Nat) (X Y R : PB) (hX : WF n X) (hY : WF n Y)
     (pX : NonNeg X) (pY : NonNeg Y) (hxh : 0 < hi X) (hyh : 0 < hi Y)
     (hR : binop n .mul .f X Y = .ok R)
@@ -572,6 +581,105 @@ theorem C02Encloses_div_pos_po_partial (n : Nat) (d : Dep) (hd : d = .p ∨ d = 
   rcases hd with rfl | rfl
   · right; rfl
   · left; rfl
+
+/-! ## Frechet encloses the independent result (after condensation of its `n²` values) -/
+
+/-- C02 enclosure, `add` against `'i'` -/
+theorem C02Encloses_add_i_partial (n : Nat) (X Y F D : PB) (hX : WF n X) (hY : WF n Y)
+    (hF : binop n .add .f X Y = .ok F) (hD : binop n .add .i X Y = .ok D) : Encloses F D := by
+  obtain ⟨e, -, -⟩ := add_f_good n X Y hX hY
+  simp only [binop] at hF hD
+  rw [e] at hF
+  have hFe := (Except.ok.inj hF).symm
+  subst hFe
+  obtain ⟨D', e', -, enc⟩ := frechet_encloses_independent (· + ·) add_mono2 n X Y hX hY
+  have hD' : add n .i X Y = mk n false (independentOp (· + ·) X Y).1 (independentOp (· + ·) X Y).2 := rfl
+  rw [hD', e'] at hD
+  have hDe := (Except.ok.inj hD).symm
+  subst hDe
+  exact enc
+
+/-- C02 enclosure, `sub` against `'i'` (`X.sub(Y,'i') = X.add(-Y,'i')`) -/
+theorem C02Encloses_sub_i_partial (n : Nat) (X Y F D : PB) (hX : WF n X) (hY : WF n Y)
+    (hF : binop n .sub .f X Y = .ok F) (hD : binop n .sub .i X Y = .ok D) : Encloses F D := by
+  obtain ⟨en, wn⟩ := neg_wf n Y hY
+  simp only [binop, sub, en, bind, Except.bind, swapPO] at hF hD
+  exact C02Encloses_add_i_partial n X (negB Y) F D hX wn (by simpa [binop] using hF) (by simpa [binop] using hD)
+
+/-- C02 enclosure, `mul` of non-negative, not identically zero operands against `'i'` -/
+theorem C02Encloses_mul_nonneg_i_partial (n : Nat) (X Y F D : PB) (hX : WF n X) (hY : WF n Y)
+    (pX : NonNeg X) (pY : NonNeg Y) (hxh : 0 < hi X) (hyh : 0 < hi Y)
+    (hF : binop n .mul .f X Y = .ok F) (hD : binop n .mul .i X Y = .ok D) : Encloses F D := by
+  simp only [binop] at hF hD
+  rw [mul_f_pos_ok n X Y hX hY pX pY hxh hyh] at hF
+  have hFe := (Except.ok.inj hF).symm
+  subst hFe
+  obtain ⟨D', e', -, enc⟩ := frechet_encloses_independent mulPos mulPos_mono2 n X Y hX hY
+  have hD' : mul n .i X Y = mk n false (independentOp (· * ·) X Y).1 (independentOp (· * ·) X Y).2 := rfl
+  rw [hD', independentOp_mul_eq X Y pX pY, e'] at hD
+  have hDe := (Except.ok.inj hD).symm
+  subst hDe
+  exact enc
+
+/-- C02 enclosure, `div` of a non-negative, not identically zero dividend by a positive divisor against `'i'` -/
+theorem C02Encloses_div_pos_i_partial (n : Nat) (X Y F D : PB) (hX : WF n X) (hY : WF n Y)
+    (pX : NonNeg X) (hxh : 0 < hi X) (pY : ∀ v ∈ Y.left, 0 < v)
+    (hF : binop n .div .f X Y = .ok F) (hD : binop n .div .i X Y = .ok D) : Encloses F D := by
+  have z : ZeroFree Y := Or.inl pY
+  obtain ⟨-, w, -, -⟩ := recip_ok n Y hY z
+  have hS : InS (fun v => 0 < v) Y := by
+    refine ⟨pY, ?_⟩
+    intro v hv
+    obtain ⟨i, hi', rfl⟩ := List.getElem_of_mem hv
+    have hl := hY.llen; have hr := hY.rlen
+    exact lt_of_lt_of_le (pY _ (List.getElem_mem _)) (hY.le i (by omega))
+  obtain ⟨-, hS'⟩ := flipB_wf _ _ antiInv_recip_pos n Y hY hS
+  have pR : NonNeg (recipB Y) := ⟨fun v hv => le_of_lt (hS'.1 v hv), fun v hv => le_of_lt (hS'.2 v hv)⟩
+  have hn : 0 < n := by
+    rcases Nat.eq_zero_or_pos n with h0 | h0
+    · subst h0
+      have e := List.eq_nil_of_length_eq_zero hX.rlen
+      simp [hi, e] at hxh
+    · exact h0
+  have hyh : 0 < hi (recipB Y) := by
+    have ne : (recipB Y).right ≠ [] := by
+      intro e
+      have := w.rlen
+      rw [e] at this
+      simp at this; omega
+    exact hS'.2 _ (getLastD_mem _ _ ne)
+  simp only [binop, div_eq_mul_recip n _ X Y hY z, swapPO] at hF hD
+  exact C02Encloses_mul_nonneg_i_partial n X (recipB Y) F D hX w pX pR hxh hyh
+    (by simpa [binop] using hF) (by simpa [binop] using hD)
+
+/-- all three other dependencies at once, for `add` and `sub` -/
+theorem C02Encloses_add_partial (n : Nat) (d : Dep) (X Y F D : PB) (hX : WF n X) (hY : WF n Y)
+    (hF : binop n .add .f X Y = .ok F) (hD : binop n .add d X Y = .ok D) : Encloses F D := by
+  cases d with
+  | f =>
+    rw [hF] at hD
+    have e := Except.ok.inj hD
+    subst e
+    intro k l r dl dr hl hr hdl hdr
+    rw [hl] at hdl; rw [hr] at hdr
+    rw [← Option.some.inj hdl, ← Option.some.inj hdr]
+    exact ⟨le_refl _, le_refl _⟩
+  | p => exact C02Encloses_add_po_partial n .p (Or.inl rfl) X Y F D hX hY hF hD
+  | o => exact C02Encloses_add_po_partial n .o (Or.inr rfl) X Y F D hX hY hF hD
+  | i => exact C02Encloses_add_i_partial n X Y F D hX hY hF hD
+  | unknown => simp [binop, add] at hD
+
+/-- the `add` and `sub` instances of the full enclosure statement -/
+theorem C02Encloses_add : C02Encloses .add :=
+  fun n d X Y F D hX hY _ hF hD => C02Encloses_add_partial n d X Y F D hX hY hF hD
+
+theorem C02Encloses_sub : C02Encloses .sub := by
+  intro n d X Y F D hX hY _ hF hD
+  obtain ⟨en, wn⟩ := neg_wf n Y hY
+  simp only [binop, sub, en, bind, Except.bind] at hF hD
+  simp only [swapPO] at hF
+  exact C02Encloses_add_partial n (swapPO d) X (negB Y) F D hX wn (by simpa [binop] using hF)
+    (by simpa [binop] using hD)
 
 /-! non-vacuity: a concrete pair of 3-step boxes meets the hypotheses, and the rule computes -/
 example : WFS 3 ⟨[1, 2, 3], [2, 3, 4]⟩ := ⟨rfl, rfl, by decide, by decide⟩
